@@ -13,10 +13,21 @@ Open Scope Z_scope.
 
 (* ------------------------------------------------------------------ stream positions *)
 (* the bytes from absolute position [off] on (seek + read to the end): the same list as
-   [skipn (Z.to_nat off) l] (Proofs/C01Proofs.v drop_skipn), computed without building a
-   unary number when the position is far beyond the end *)
+   [skipn (Z.to_nat off) l] (Proofs/C01Lemmas.v drop_skipn), computed on the binary number so that
+   it costs O(min(off, |l|)) — no unary number is built for a position far beyond the end, and
+   the length of the list is never computed *)
+Fixpoint dropP {A} (p : positive) (l : list A) {struct p} : list A :=
+  match l with
+  | [] => []
+  | _ :: t =>
+      match p with
+      | xH => t
+      | xO q => dropP q (dropP q l)
+      | xI q => match dropP q (dropP q l) with [] => [] | _ :: t' => t' end
+      end
+  end.
 Definition drop (off : Z) (l : list Z) : list Z :=
-  if zlen l <=? off then [] else skipn (Z.to_nat off) l.
+  match off with Zpos p => dropP p l | _ => l end.
 
 (* ------------------------------------------------------------------ containers *)
 (* a field of a parsed construct Container: int, bytes (Array of bytes / padding),
